@@ -53,6 +53,9 @@ func checkC05(r *Run) propMeta {
 	checkValueContainersUnwritten(r, cg, reach)
 	checkConstantIndexGuarded(r, cg, reach)
 	checkLoopProgress(r, cg, reach)
+	if gp := r.Pkg("graph"); gp != nil {
+		checkAccessorsPure(r, "C05-R11-accessors-pure", gp, "Properties")
+	}
 	checkLockFreeMappersReadOnly(r, r.Pkg("drivers/pg/pgutil"))
 	r.Floor("C05-R1-map-order", 12)
 	return meta
